@@ -598,13 +598,13 @@ func init() {
 		Jobs: func(tier string, seed int64) []Job {
 			var jobs []Job
 			for _, k := range []int{1, 5, 12} {
-				jobs = append(jobs, Job{Dir: "cim2bin", Harness: "VC19Bin", Params: []int{k}, Label: fmt.Sprintf("VC19Bin/k%d", k)})
+				jobs = append(jobs, Job{Dir: "cim2bin", Harness: "VC19Bin", Params: []int{k}, Label: fmt.Sprintf("VC19Bin/k%d", k), MaxPaths: 64})
 			}
 			for k := 1; k <= 12; k++ {
-				jobs = append(jobs, Job{Dir: "cim2cas", Harness: "VC19Cas", Params: []int{k, 0}, Label: fmt.Sprintf("VC19Cas/file%d/default-name", k)})
+				jobs = append(jobs, Job{Dir: "cim2cas", Harness: "VC19Cas", Params: []int{k, 0}, Label: fmt.Sprintf("VC19Cas/file%d/default-name", k), MaxPaths: 64})
 			}
 			for m := 1; m <= 12; m++ {
-				jobs = append(jobs, Job{Dir: "cim2cas", Harness: "VC19Cas", Params: []int{8, m}, Label: fmt.Sprintf("VC19Cas/file8/nam%d", m)})
+				jobs = append(jobs, Job{Dir: "cim2cas", Harness: "VC19Cas", Params: []int{8, m}, Label: fmt.Sprintf("VC19Cas/file8/nam%d", m), MaxPaths: 64})
 			}
 			return jobs
 		},
